@@ -51,6 +51,13 @@ def gen_system(rng, fast=False):
     desc = []
     kind0 = rng.choice(["chain", "chain", "closed", "pointmass", "driven"]) if not fast else "chain"
     Th = np.diag([0.02, 0.09, 0.09])
+    if rng.random() < 0.5:
+        # the inertia tensor given in a body basis that is not principal (products of inertia): the mass matrix is not diagonal
+        from cardillo.math import Exp_SO3 as _Exp
+        Rp = _Exp(np.array([rng.uniform(-1, 1) for _ in range(3)]))
+        Th = Rp @ np.diag([0.02, 0.07, 0.09]) @ Rp.T
+        Th = 0.5 * (Th + Th.T)
+        desc.append("products of inertia")
     L = 1.0
     if kind0 == "pointmass":
         # point-mass pendulum(s): spherical pendulum on a fixed-distance constraint, optionally a second mass
